@@ -18,6 +18,7 @@ S->C:  TLC enumerates EVERY string up to the bound over the abstract alphabets a
 from __future__ import annotations
 
 import json
+import os
 import random
 from typing import Any, Dict, List
 
@@ -105,16 +106,28 @@ def _python_via_linter(text: str, ctx: Dict[str, Any]):
     return "render", rf.templated_variants[0].templated_str, {}
 
 
+def _thin(vs: List[dict], seen: Dict[str, int]) -> List[dict]:
+    """Keep the replay payload for the first few violations of a signature per chunk (the rest only count)."""
+    for v in vs:
+        k = v["clause"] + json.dumps(v["sig"], sort_keys=True)
+        seen[k] = seen.get(k, 0) + 1
+        if seen[k] > 3:
+            v["payload"] = None
+            v["what"] = v["what"][:160]
+    return vs
+
+
 def _py_chunk(arg):
     recs, seed, maxlen = arg
     ctx = R.py_context(maxlen)
     out, n, nontriv = [], 0, []
+    seen: Dict[str, int] = {}
     for idx, rec in recs:
         others = [" "]
         if "O" in rec["s"] and idx % 3 == 0:     # a third of them also with another "other" character
             others.append(random.Random(seed * 1000003 + idx).choice(R.PY_OTHER[1:]))
         for o in others:
-            out += py_case(rec, o, ctx)
+            out += _thin(py_case(rec, o, ctx), seen)
             n += 1
         if any(c in ("LB", "RB") for c in rec["s"]):
             nontriv.append(idx)
@@ -124,13 +137,31 @@ def _py_chunk(arg):
 PY_NARROW = ["LB", "RB", "DOT", "N", "BANG"]      # second scope: fewer classes, one character longer
 
 
-def run_python(rep: Report, tier: str, seed: int) -> None:
+def py_scopes(tier: str):
     maxlen = 6 if tier == "quick" else 7
-    scopes = [(R.PY_CLASSES, maxlen), (PY_NARROW, maxlen + 1)]
+    return maxlen, [(R.PY_CLASSES, maxlen), (PY_NARROW, maxlen + 1)]
+
+
+def start_models(tier: str):
+    """Run the three TLC enumerations side by side (they are independent); -> finished futures."""
+    from concurrent.futures import ThreadPoolExecutor
+
+    w = max(1, int(os.environ.get("VF_PROCS", "14") or 14) // 3)
+    ex = ThreadPoolExecutor(3)
+    _maxlen, scopes = py_scopes(tier)
+    py = [ex.submit(R.run_part, "py", n, py_alphabet=a, invariants=["PyTypeOK", "PyLossless", "PyValidIsLit"],
+                    timeout=2400, heap="4g", workers=w) for a, n in scopes]
+    ph = ex.submit(R.run_part, "ph", 5 if tier == "quick" else 6, styles=R.PH_STYLES, invariants=["PhTiles"],
+                   timeout=2400, heap="4g", workers=w)
+    ex.shutdown(wait=True)            # all three finished before any worker process is forked
+    return py, ph
+
+
+def run_python(rep: Report, tier: str, seed: int, futures) -> None:
+    maxlen, scopes = py_scopes(tier)
     recs: Dict[tuple, dict] = {}
-    for alphabet, n in scopes:
-        m = R.run_part("py", n, py_alphabet=alphabet, invariants=["PyTypeOK", "PyLossless", "PyValidIsLit"],
-                       timeout=2400, heap="12g")
+    for (alphabet, n), fut in zip(scopes, futures):
+        m = fut.result()
         expect_model_ok(m, "Render(py): machine invariants")
         rep.model(m, f"every string <= {n} over {len(alphabet)} character classes {alphabet} scanned by the format-string machine")
         got = {tuple(r["s"]): r for r in m.records if "valid" in r}
@@ -195,24 +226,25 @@ def ph_case(rec: dict, other: str) -> List[dict]:
 def _ph_chunk(arg):
     recs, seed = arg
     out, n, nontriv = [], 0, []
+    seen: Dict[str, int] = {}
     for idx, rec in recs:
         rnd = random.Random(seed * 1000003 + idx)
         other = rnd.choice(R.PH_OTHER[rec["style"]])
-        out += ph_case(rec, other)
+        out += _thin(ph_case(rec, other), seen)
         n += 1
         if any(g["t"] == "templated" for g in rec["segs"]):
             nontriv.append(f"ph{idx}")
     return out, n, nontriv
 
 
-def run_placeholder(rep: Report, tier: str, seed: int) -> None:
+def run_placeholder(rep: Report, tier: str, seed: int, future) -> None:
     from sqlfluff.core.templaters.placeholder import KNOWN_STYLES
 
     if sorted(KNOWN_STYLES) != sorted(R.PH_STYLES):
         raise MachineryError(f"KNOWN_STYLES is {sorted(KNOWN_STYLES)}; Render.tla specifies {sorted(R.PH_STYLES)} — "
                              "add the new style's contract to spec/Render.tla")
     maxlen = 5 if tier == "quick" else 6
-    m = R.run_part("ph", maxlen, styles=R.PH_STYLES, invariants=["PhTiles"], timeout=2400, heap="12g")
+    m = future.result()
     expect_model_ok(m, "Render(ph): segments tile the source")
     rep.model(m, f"every string <= {maxlen}(+1) over each style's alphabet, 12 styles")
     recs = {(r["style"], tuple(r["s"])): r for r in m.records if "style" in r}
@@ -237,8 +269,9 @@ def run_placeholder(rep: Report, tier: str, seed: int) -> None:
 # ------------------------------------------------------------------------------------------- entry
 def run(tier: str, seed: int) -> int:
     rep = Report(PROP, tier, seed, "model_checking")
-    run_python(rep, tier, seed)
-    run_placeholder(rep, tier, seed)
+    py, ph = start_models(tier)
+    run_python(rep, tier, seed, py)
+    run_placeholder(rep, tier, seed, ph)
     rep.exhaustive = True
     rep.rule = ("TLC enumerates every string up to the bound (python: 7 character classes; placeholder: each style's "
                 "alphabet of 4-6 classes); python non-trivial = the string contains a brace, placeholder non-trivial = the "
